@@ -213,7 +213,8 @@ func (c *core) execute(ctx context.Context, client *Client, req *Request) (*Resp
 
 	// Execute after response hooks (built-in and then user-defined).
 	if err := c.afterHooks(resp); err != nil {
-		resp.Close()
+		// The caller gets no response and still owns the request: release the response only.
+		ReleaseResponse(resp)
 		return nil, err
 	}
 
